@@ -85,7 +85,7 @@ def build(kind, exc_handler, init_out, lsn_out, log, ka=None):
     class H(S.ExceptionHandler):
         def handle_exception(self, e):
             acts.cur().append("handler")
-            return exc_handler
+            return None if exc_handler == "returns-None" else exc_handler
         def handle_ioexception(self, e):
             acts.cur().append("iohandler")
             return True
@@ -159,7 +159,7 @@ def stream(tier):
     ops, impl = [], []
     for i in range(n):
         kind = R.choice(["data", "meta"])
-        exh = R.choice([None, None, True, False])
+        exh = R.choice([None, None, True, False, "returns-None"])
         lines, hint = gen_lines(kind, R)
         init_out = ("ret", None) if R.random() < 0.75 else ("raise", make_exc(R.choice(lib + other), R))
         lsn_out = ("ret", None)
@@ -208,7 +208,7 @@ def stream(tier):
                 row.append(a)
             shown.append(",".join(row))
         hexact = None if hint is None else Fraction(float(hint))
-        ops.append("dispatch %s %s %s %s %s -- %s" % (kind, {None: "n", True: "t", False: "f"}[exh], fr(None if ka is None else Fraction(ka)),
+        ops.append("dispatch %s %s %s %s %s -- %s" % (kind, {None: "n", True: "t", False: "f", "returns-None": "f"}[exh], fr(None if ka is None else Fraction(ka)),
                                                       fr(hexact), script_toks([init_out, lsn_out]), " ".join(C.hx(l) for l in lines)))
         impl.append("ok %s ; init=%s close=%s closed=%s ka=%s" % (" | ".join(shown), "t" if srv.init_expected else "f",
                                                                     "t" if srv._close_expected else "f",
@@ -240,7 +240,7 @@ def stream(tier):
                 rejected = True          # second init
             if rejected:
                 bad = [a for a in l if a.startswith(("init:", "listener", "reply:", "submit:", "data:"))]
-                want = (["handler"] if exh is not None else []) + (["fal"] if kind == "data" and exh is not False else [])
+                want = (["handler"] if exh is not None else []) + (["fal"] if kind == "data" and exh in (None, True) else [])
                 if bad or l != want:
                     res.violation("rejected-request-handling", "line %d (%r) must be rejected with exactly %s, got %s" % (j, lines[j][:40], want, l), inp)
                 res.distribution["rejected_lines"] += 1
